@@ -130,7 +130,7 @@ def wl_chosen_nl(ctx, config):
     """(1,1) shape: the proof is n || l chosen by the prover; with small n, l the re-encodings n+order, l+order are constructible"""
     rng = ctx.rng
     Gs = bppp.gens(2); gser = bppp.gens_ser(Gs)
-    for it in range(ctx.n(160, 4000)):
+    for it in ctx.iters(160, 4000):
         nv = [rng.choice((0, 1, 2, rng.randrange(2**100)))]; lv = [rng.choice((0, 1, rng.randrange(2**100)))]; cv = [rng.randrange(n)]
         rho = rng.randrange(1, n); prefix = pools.rbytes(rng, rng.randrange(0, 40))
         pr = ctx.call("bppp_norm_prove", rng.choice((0, 4096)), prefix or b'', b32(rho), gser, sv(nv), sv(lv), sv(cv), config=config)
@@ -165,7 +165,7 @@ def wl_generators(ctx, config):
             sb = ctx.call("bppp_gens_parse", want, 33 * k - 1, config=config, ill=2)      # too small output buffer: documented illegal use
             if sb is not None: ctx.check(sb.live == 0, "bppp_generators:leak_after_destroy", "", config)
     # malformed encodings
-    for it in range(ctx.n(300, 8000)):
+    for it in ctx.iters(300, 8000):
         k = rng.choice((1, 2, 3, 5, 16, 64)); want = bytearray(bppp.gens_ser(model[:k])); kind = it % 6
         if kind == 0: s = bytes(want) + pools.rbytes(rng, rng.choice((1, 32)))
         elif kind == 1: s = bytes(want[:-rng.choice((1, 32))])
